@@ -29,7 +29,7 @@ def Const.pyEq (a b : Const) : Bool :=
 types; for expression nodes the class, which `==` tests anyway. -/
 inductive TypeTag where
   | int | bool | float | str | none | node
-  deriving Repr, BEq, DecidableEq
+  deriving Repr, DecidableEq
 
 def Expr.typeTag : Expr → TypeTag
   | .const (.int _) => .int
